@@ -53,7 +53,7 @@ CORPUS = [
 def types(big=False):
     T = []
     I, S, O = cls("int"), cls("str"), cls("object")
-    for vals in ([0], [1], [0, 1], ["a"], ["a", "b"], [0, "a"], [2, -1, 0], [1.0], [0.0, 1.0], [1.5, 2.0]):
+    for vals in ([0], [1], [0, 1], ["a"], ["a", "b"], [0, "a"], [2, -1, 0], [1.0], [0.0, 1.0], [1.5, 2.0], [True], [2]):
         bounds = sorted({type(v).__name__ for v in vals})
         b = cls(bounds[0]) if len(bounds) == 1 else {"k": "union", "args": [cls(x) for x in bounds]}
         T.append({"k": "lit", "vals": [vterm(v) for v in vals], "bound": b, "py": ["lit", vals]})
@@ -78,6 +78,11 @@ def types(big=False):
     T.append({"k": "union", "args": [sw, ew], "py": ["or", sw["py"], ew["py"]]})
     l0 = T[0]
     T.append({"k": "union", "args": [l0, sw], "py": ["or", l0["py"], sw["py"]]})
+    # members whose bounds are nested (bool below int): each member only speaks for instances of its own bound
+    lt, l2 = T[10], T[11]
+    assert lt["py"] == ["lit", [True]] and l2["py"] == ["lit", [2]]
+    T.append({"k": "union", "args": [lt, l2], "py": ["or", lt["py"], l2["py"]]})
+    T.append({"k": "union", "args": [l2, lt], "py": ["or", l2["py"], lt["py"]]})
     T.append({"k": "prod", "args": [l0, sw], "bound": cls("tuple"), "py": ["prod", [l0, sw]]})
     return T
 
